@@ -55,6 +55,34 @@ def strategy(tier):
     return st.builds(lambda ttl, steps: {"ttl": ttl, "steps": steps}, st.sampled_from([[5, 1], [5, 3], [5, 3], [INF, None]]), st.lists(_step(), min_size=1, max_size=14))
 
 
+ALPHA = ["subA", "unsubA", "subB", "unsubB", "start", "stop", "T-q", "T+q", "+1.2"]
+ENUM_LEN = {"quick": 5, "thorough": 6}
+EXHAUSTIVE = {"quick": "all 9^5 = 59049 scripts of length 5 over {subscribe/stop-subscribe of two eventgroups at one server, start, stop} x timing prefixes {refresh tick -RES/4, +RES/4, +1.2 s}, for finite TTL with refresh and infinite TTL without",
+              "thorough": "all 9^6 = 531441 scripts of length 6 over the same alphabet, for both TTL configurations"}
+
+
+def enum_size(tier):
+    return 2 * len(ALPHA) ** ENUM_LEN[tier]
+
+
+def enum_case(tier, idx):
+    idx, cfgi = divmod(idx, 2)
+    steps = []
+    when = ["d", 0.01]
+    for _ in range(ENUM_LEN[tier]):
+        idx, r = divmod(idx, len(ALPHA))
+        a = ALPHA[r]
+        if a in ("T-q", "T+q", "+1.2"):
+            when = {"T-q": ["t", 0, "-q"], "T+q": ["t", 0, "+q"], "+1.2": ["d", 1.2]}[a]
+            continue
+        if a in ("start", "stop"):
+            steps.append({"op": a, "when": when})
+        else:
+            steps.append({"op": "sub" if a.startswith("sub") else "unsub", "e": 0 if a.endswith("A") else 3, "srv": 0, "when": when})
+        when = ["s"] if when == ["d", 0.01] and steps and len(steps) % 2 == 0 else ["d", 0.01]
+    return {"ttl": [[5, 1], [INF, None]][cfgi], "steps": [{"op": "start", "when": ["d", 0.01]}] + steps}
+
+
 def fixed_cases(tier):
     out = []
     for ttl in ([5, 1], [INF, None]):
